@@ -1,6 +1,7 @@
 (* C05 - memory is little-endian and byte-addressed; writes land at the end of the cycle.
    Property theorems only; proofs live in MemProofs.v (memory) and MachineProofs.v (cycle). *)
 From HclV Require Import Base Expr Machine MemSpec MemProofs.
+From HclV Require TextLevelSpec TextLevelProofs.
 From Coq Require Import Sorted.
 From HclV Require HistorySpec HistoryProofs.
 Open Scope N_scope.
@@ -82,3 +83,11 @@ Proof. vm_compute. reflexivity. Qed.
 Theorem C05_memory_history : HistorySpec.stmt_memory_history.
 Proof. exact HistoryProofs.memory_history_holds. Qed.
 Print Assumptions C05_memory_history.
+
+(* ---- END TO END, from the program TEXT (TextLevelSpec.v / TextLevelProofs.v): the user's file (valid
+   UTF-8) after the compiled preamble, lexed with any Unicode classification, parsed with the compiled
+   tier table, built with the compiled component table; states = those reachable by loading an
+   image and stepping.  No hypothesis a user cannot check by reading the file. ------------------- *)
+Theorem C05_text_level : TextLevelSpec.stmt_text_ports_scheduled /\ TextLevelSpec.stmt_text_memory_history.
+Proof. split; [exact TextLevelProofs.text_ports_scheduled_holds | exact TextLevelProofs.text_memory_history_holds]. Qed.
+Print Assumptions C05_text_level.
